@@ -47,6 +47,35 @@ Proof.
     rewrite sqrt_square by lra. lra.
 Qed.
 
+(* the sixth composition: (s, d) -> (hs, tz) -> (s, d) *)
+Theorem roundtrip_s_d_via_hs_tz s d : 0 < s -> 0 < d ->
+  (let '(hs, tz) := vt_s_d_to_hs_tz RN s d in vt_hs_tz_to_s_d RN hs tz) = (s, d).
+Proof.
+  intros Hs Hd. pose proof factor_pos as Hf. unf.
+  change (IZR 16) with 16. change (IZR 4) with 4. change (IZR 2) with 2. change (IZR 1) with 1.
+  set (Q := 16 * d ^ 2 * s ^ 2 + factor ^ 2).
+  assert (HQ : 0 < Q) by (unfold Q; assert (0 < d ^ 2 * s ^ 2) by (apply Rmult_lt_0_compat; apply pow_lt; assumption); nra).
+  set (Rt := sqrt Q).
+  assert (HR2 : Rt * Rt = Q) by (apply sqrt_sqrt; lra).
+  assert (HRpos : 0 < Rt) by (apply sqrt_lt_R0; exact HQ).
+  assert (HRf : factor < Rt).
+  { apply Rsqr_incrst_0; try lra. unfold Rsqr. rewrite HR2. unfold Q.
+    assert (0 < d ^ 2 * s ^ 2) by (apply Rmult_lt_0_compat; apply pow_lt; assumption). nra. }
+  set (X := factor * Rt / s ^ 2 - factor ^ 2 / s ^ 2).
+  assert (HX : X = factor * (Rt - factor) / s ^ 2) by (unfold X; field; lra).
+  assert (HXpos : 0 < X).
+  { rewrite HX. apply Rdiv_lt_0_compat; [|apply pow_lt; exact Hs]. apply Rmult_lt_0_compat; lra. }
+  assert (Htz2 : 1 / 2 * sqrt X * (1 / 2 * sqrt X) = X / 4).
+  { replace (1 / 2 * sqrt X * (1 / 2 * sqrt X)) with (sqrt X * sqrt X / 4) by field. rewrite sqrt_sqrt by lra. reflexivity. }
+  f_equal.
+  - rewrite Htz2, HX. field. repeat split; lra.
+  - rewrite Htz2, HX.
+    replace ((Rt - factor) / (4 * s) * ((Rt - factor) / (4 * s)) + factor * (Rt - factor) / s ^ 2 / 4 / 2)
+      with ((Rt * Rt - factor * factor) / (16 * s ^ 2)) by (field; lra).
+    rewrite HR2. unfold Q. replace ((16 * d ^ 2 * s ^ 2 + factor ^ 2 - factor * factor) / (16 * s ^ 2)) with (d * d) by (field; lra).
+    apply sqrt_square. lra.
+Qed.
+
 (* ---- (hs, tz) <-> (hs, s) *)
 Theorem roundtrip_hs_tz_via_hs_s hs tz : 0 < hs -> 0 < tz ->
   (let '(h, s) := vt_hs_tz_to_hs_s RN hs tz in vt_hs_s_to_hs_tz RN h s) = (hs, tz).
